@@ -211,3 +211,23 @@ for _fid in ("KF3", "KF4", "KF5", "KF6", "KF7", "KF11"):
 _kf8_tree, _kf9_tree = CLASSIFIERS["KF8"], CLASSIFIERS["KF9"]
 CLASSIFIERS["KF8"] = lambda prop, f: _explained("KF8")(prop, f) or _kf8_tree(prop, f)
 CLASSIFIERS["KF9"] = lambda prop, f: _explained("KF9")(prop, f) or _kf9_tree(prop, f)
+
+
+def _kf8_pretty(prop, f):
+    """C18: the pretty text re-parses to the original tree once the KF8 blank is put after the ':'"""
+    from . import common, parsing
+    inp = f.get("input") or {}
+    if prop != "C18" or "tree" not in inp or "pretty" not in inp:
+        return False
+    I = common.impl()
+    t = common.load_tree(inp["tree"])
+    if _glue_repair(t, {"KF8"}) == 0:
+        return False
+    pp = I.pretty.Prettifier(indent=inp.get("indent", 4), max_len=inp.get("max_len", 80),
+                             inline_ops=inp.get("inline_ops", False))
+    r, back = parsing.impl_parse(pp(t))
+    return back is not None and back == common.load_tree(inp["tree"])
+
+
+_kf8_prev = CLASSIFIERS["KF8"]
+CLASSIFIERS["KF8"] = lambda prop, f: _kf8_prev(prop, f) or _kf8_pretty(prop, f)
